@@ -67,7 +67,7 @@ def cases(tier, seed):
                 for ztype, variant in itertools.product(
                         ("num", "str"),
                         ("z", "multi", "yerr", "c", "grid", "xvar",
-                         "xvar2d")):
+                         "xvar2d", "gridc")):
                     j += 1
                     hk = [kind, nx, nz, mask, ztype, variant]
                     if tier == "quick" and core.pick(hk + ["thin"], 4):
@@ -94,13 +94,14 @@ def cases(tier, seed):
                         if variant == "xvar2d":
                             o = {k: v for k, v in o.items()
                                  if k in ("markers", "lines", "xlog", "ylog")}
-                        if variant == "c" and "colors" in o:
+                        if variant in ("c", "gridc") and "colors" in o:
                             o = {k: v for k, v in o.items() if k != "colors"}
                         yield {"kind": kind, "nx": nx, "nz": nz, "mask": mask,
                                "inf": inf, "ztype": ztype, "variant": variant,
                                "grid": ["row", "col", "both"][
                                    core.pick(hk + ["grid"], 3)]
-                               if variant == "grid" else None, "opts": o,
+                               if variant in ("grid", "gridc") else None,
+                               "opts": o,
                                "stored": core.pick(hk + ["stored", t], 3)}
         # many series: the legend -> colour bar switch
         for nz in ((10, 11) if tier == "quick" else (9, 10, 11, 12)):
@@ -352,7 +353,8 @@ def check_lines(case):
         kw["y_err"] = "ye"
         if nx > 1:
             kw["x_err"] = "xe"
-    if variant == "c":
+    isc = variant in ("c", "gridc")
+    if isc:
         kw["c"] = "cline" if kind == "lineplot" else "cpt"
     grid = case.get("grid")
     if grid in ("row", "both"):
@@ -430,9 +432,9 @@ def check_lines(case):
                                     "expected %r" % (iz, labs[iz], labels[iz])))
                         break
             # colours
-            if (opts.get("colors") is True or variant == "c") and \
+            if (opts.get("colors") is True or isc) and \
                     kind == "lineplot" and len(arts) == nz:
-                if variant == "c":
+                if isc:
                     cv = before["cline"].values.tolist()
                     exp = expected_color(ds, case, opts, cv, cv, False)
                 else:
@@ -449,7 +451,7 @@ def check_lines(case):
                                     "at its normalised value %r (opts %r)"
                                     % (iz, got, tuple(exp[iz]), opts)))
                         break
-            if variant == "c" and kind == "scatter" and len(arts) == nz:
+            if isc and kind == "scatter" and len(arts) == nz:
                 cvals = before["cpt"].transpose(*canon).values
                 lo, hi = float(np.nanmin(cvals)), float(np.nanmax(cvals))
                 for iz in range(nz):
@@ -729,6 +731,32 @@ def check_heat(case):
                     and np.array_equal(arr.filled(0), want.filled(0))):
                 vio.append((key("mesh"), "panel (%d,%d): mesh %r, data %r"
                             % (ir, iq, arr.tolist(), want.tolist())))
+            # the colour scale: one for all panels, spanning the finite data
+            # of the whole dataset (or the limits given)
+            import matplotlib as mpl
+            fin_ = zz[np.isfinite(zz)]
+            if opts.get("colormap_log"):
+                fin_ = fin_[fin_ > 0]
+            nm = meshes[0].norm
+            if len(fin_) and float(fin_.min()) < float(fin_.max()):
+                lo = opts.get("vmin", float(fin_.min()))
+                hi = opts.get("vmax", float(fin_.max()))
+                if not (np.isclose(nm.vmin, lo) and np.isclose(nm.vmax, hi)):
+                    vio.append((key("norm"), "panel (%d,%d): colour scale "
+                                "%r..%r, expected %r..%r for all panels"
+                                % (ir, iq, nm.vmin, nm.vmax, lo, hi)))
+                if isinstance(nm, mpl.colors.LogNorm) != bool(
+                        opts.get("colormap_log")):
+                    vio.append((key("norm-kind"), "panel (%d,%d): %s"
+                                % (ir, iq, type(nm).__name__)))
+                # (heat maps default to 'inferno', as documented)
+                cm = oracle_cmap(opts.get("colormap", "inferno"),
+                                 opts.get("colormap_reverse", False))
+                probe = np.linspace(0, 1, 7)
+                if not np.allclose(meshes[0].cmap(probe), cm(probe),
+                                   atol=1e-6):
+                    vio.append((key("cmap"), "panel (%d,%d): not the chosen "
+                                "colour map" % (ir, iq)))
             co = meshes[0].get_coordinates()
             xe, ye = co[0, :, 0], co[:, 0, 1]
             xs = [1.0, 2.0, 3.0][:nx]
